@@ -7,8 +7,8 @@ use rsdd::builder::bdd::RobddBuilder;
 use rsdd::builder::cache::AllIteTable;
 use rsdd::builder::sdd::CompressionSddBuilder;
 use rsdd::builder::BottomUpBuilder;
-use rsdd::repr::{BddPtr, DDNNFPtr, SddPtr, VTree, VarLabel, VarOrder};
-use rsdd::serialize::{BDDSerializer, SDDSerializer, VTreeSerializer};
+use rsdd::repr::{BddPtr, Cnf, DDNNFPtr, LogicalExpr, SddPtr, VTree, VarLabel, VarOrder};
+use rsdd::serialize::{BDDSerializer, LogicalSExpr, SDDSerializer, VTreeSerializer};
 use serde_json::{json, Value};
 
 fn vtree(v: &Value) -> VTree {
@@ -157,10 +157,82 @@ fn run_vtree(c: &Value) -> CaseResult {
     Ok(())
 }
 
+/// DIMACS text -> Cnf (variable k of the text is label k-1), and Cnf -> DIMACS clause lines -> Cnf
+fn run_dimacs(c: &Value) -> CaseResult {
+    let nv = c["nv"].as_u64().unwrap_or(1) as usize;
+    let cls: Vec<Vec<i64>> = c["clauses"].as_array().map(|a| a.iter().map(|cl| cl.as_array().map(|l| l.iter().map(|x| x.as_i64().unwrap_or(1)).collect()).unwrap_or_default()).collect()).unwrap_or_default();
+    let mut text = format!("p cnf {} {}\n", nv, cls.len());
+    for cl in &cls { for l in cl { text.push_str(&format!("{} ", l)); } text.push_str("0\n"); }
+    let cnf = Cnf::from_dimacs(&text);
+    let holds = |cs: &[Vec<rsdd::repr::Literal>], a: &[bool]| cs.iter().all(|cl| cl.iter().any(|l| a[l.label().value() as usize] == l.polarity()));
+    for cl in cnf.clauses() { for l in cl { if l.label().value() as usize >= nv { return Err(format!("from_dimacs produced label {} for a text over {} variables", l.label().value(), nv)); } } }
+    for m in 0..(1usize << nv) {
+        let a: Vec<bool> = (0..nv).map(|i| (m >> i) & 1 == 1).collect();
+        let want = cls.iter().all(|cl| cl.iter().any(|l| a[(l.unsigned_abs() - 1) as usize] == (*l > 0)));
+        if holds(cnf.clauses(), &a) != want { return Err(format!("Cnf::from_dimacs: the parsed formula is {} on assignment {m:#b} (variable k of the text = bit k-1), the text says {}", !want, want)); }
+    }
+    // print and re-parse: the same clause sets
+    let text2 = format!("p cnf {} {}\n{}\n", nv, cnf.clauses().len(), cnf.to_dimacs());
+    let cnf2 = Cnf::from_dimacs(&text2);
+    let norm = |cs: &[Vec<rsdd::repr::Literal>]| { let mut v: Vec<Vec<(u64, bool)>> = cs.iter().map(|cl| { let mut x: Vec<(u64, bool)> = cl.iter().map(|l| (l.label().value(), l.polarity())).collect(); x.sort(); x.dedup(); x }).collect(); v.sort(); v.dedup(); v };
+    if norm(cnf.clauses()) != norm(cnf2.clauses()) { return Err(format!("to_dimacs then from_dimacs changed the clause sets: {:?} became {:?}", norm(cnf.clauses()), norm(cnf2.clauses()))); }
+    Ok(())
+}
+
+/// s-expression text -> LogicalSExpr (serde_sexpr) -> LogicalExpr with the documented mapping (names in lexicographic order -> 0, 1, ..)
+fn sx_text(e: &Value) -> String {
+    let a = e.as_array().unwrap();
+    let name = a[0].as_str().unwrap_or("");
+    if name == "Var" { return format!("(Var {})", a[1].as_str().unwrap_or("X")); }
+    let mut s = format!("({}", name);
+    for k in &a[1..] { s.push(' '); s.push_str(&sx_text(k)); }
+    s.push(')');
+    s
+}
+fn sx_names(e: &Value, out: &mut Vec<String>) {
+    let a = e.as_array().unwrap();
+    if a[0] == "Var" { let n = a[1].as_str().unwrap_or("X").to_string(); if !out.contains(&n) { out.push(n); } } else { for k in &a[1..] { sx_names(k, out); } }
+}
+fn sx_eval(e: &Value, names: &[String], asg: &[bool]) -> bool {
+    let a = e.as_array().unwrap();
+    let g = |i: usize| sx_eval(&a[i], names, asg);
+    match a[0].as_str().unwrap_or("") {
+        "Var" => asg[names.iter().position(|n| n == a[1].as_str().unwrap_or("X")).unwrap()],
+        "Not" => !g(1), "Or" => g(1) || g(2), "And" => g(1) && g(2), "Iff" => g(1) == g(2), "Xor" => g(1) != g(2),
+        _ => if g(1) { g(2) } else { g(3) },
+    }
+}
+fn le_eval(e: &LogicalExpr, asg: &[bool]) -> Result<bool, String> {
+    Ok(match e {
+        LogicalExpr::Literal(i, p) => *asg.get(*i).ok_or(format!("variable index {i} with {} names", asg.len()))? == *p,
+        LogicalExpr::Not(x) => !le_eval(x, asg)?,
+        LogicalExpr::And(x, y) => { let (p, q) = (le_eval(x, asg)?, le_eval(y, asg)?); p && q }
+        LogicalExpr::Or(x, y) => { let (p, q) = (le_eval(x, asg)?, le_eval(y, asg)?); p || q }
+        LogicalExpr::Iff(x, y) => le_eval(x, asg)? == le_eval(y, asg)?,
+        LogicalExpr::Xor(x, y) => le_eval(x, asg)? != le_eval(y, asg)?,
+        LogicalExpr::Ite { guard, thn, els } => { let (g, t, f) = (le_eval(guard, asg)?, le_eval(thn, asg)?, le_eval(els, asg)?); if g { t } else { f } }
+    })
+}
+fn run_sexpr(c: &Value) -> CaseResult {
+    let text = sx_text(&c["expr"]);
+    let sx = serde_sexpr::from_str::<LogicalSExpr>(&text).map_err(|e| format!("serde_sexpr rejected {text}: {e}"))?;
+    let le = LogicalExpr::from_sexpr(&sx);
+    let mut names = vec![]; sx_names(&c["expr"], &mut names);
+    names.sort();   // the documented numbering: lexicographic order of the names
+    for m in 0..(1usize << names.len()) {
+        let a: Vec<bool> = (0..names.len()).map(|i| (m >> i) & 1 == 1).collect();
+        let (got, want) = (le_eval(&le, &a)?, sx_eval(&c["expr"], &names, &a));
+        if got != want { return Err(format!("from_sexpr({text}) is {got} on assignment {m:#b} of the names {:?} in lexicographic order, the text says {want}", names)); }
+    }
+    Ok(())
+}
+
 pub fn run(c: &Value) -> CaseResult {
     match c["case"].as_str().unwrap_or("") {
         "ser_bdd" => run_bdd(c),
         "ser_sdd" => run_sdd(c),
+        "ser_dimacs" => run_dimacs(c),
+        "ser_sexpr" => run_sexpr(c),
         _ => run_vtree(c),
     }
 }
@@ -195,6 +267,32 @@ pub fn candidates(seed: u64) -> Vec<Value> {
             });
         }
         out.push(if bdd { json!({"case": "ser_bdd", "order": shape, "ops": ops}) } else { json!({"case": "ser_sdd", "vtree": shape, "ops": ops}) });
+    }
+    // DIMACS texts: 1-6 variables (and 11-12, two-digit numbers), 1-6 non-empty clauses of 1-4 literals, repeated and complementary literals allowed
+    out.push(json!({"case": "ser_dimacs", "nv": 3, "clauses": [[1, -2, 3]]}));
+    out.push(json!({"case": "ser_dimacs", "nv": 2, "clauses": [[-1], [2, 1], [-2, -1]]}));
+    for t in 0..300 {
+        let nv = if t % 10 == 9 { 11 + nx(2) } else { 1 + nx(6) };
+        let cls: Vec<Vec<i64>> = (0..(1 + nx(6))).map(|_| (0..(1 + nx(4))).map(|_| { let v = 1 + nx(nv) as i64; if nx(2) == 0 { v } else { -v } }).collect()).collect();
+        out.push(json!({"case": "ser_dimacs", "nv": nv, "clauses": cls}));
+    }
+    // s-expressions without constants over names whose lexicographic order differs from their order of appearance and from numeric order
+    let pools: [&[&str]; 4] = [&["X", "Y"], &["b", "a", "c"], &["x10", "x9", "x1"], &["Z", "A", "m", "B"]];
+    for t in 0..300 {
+        let pool = pools[t % 4];
+        fn gen(d: u64, pool: &[&str], nx: &mut dyn FnMut(u64) -> u64) -> Value {
+            if d == 0 || nx(4) == 0 { return json!(["Var", pool[nx(pool.len() as u64) as usize]]); }
+            match nx(7) {
+                0 | 1 => json!(["Not", gen(d - 1, pool, nx)]),
+                2 => json!(["Or", gen(d - 1, pool, nx), gen(d - 1, pool, nx)]),
+                3 => json!(["And", gen(d - 1, pool, nx), gen(d - 1, pool, nx)]),
+                4 => json!(["Iff", gen(d - 1, pool, nx), gen(d - 1, pool, nx)]),
+                5 => json!(["Xor", gen(d - 1, pool, nx), gen(d - 1, pool, nx)]),
+                _ => json!(["Ite", gen(d - 1, pool, nx), gen(d - 1, pool, nx), gen(d - 1, pool, nx)]),
+            }
+        }
+        let e = gen(1 + (t as u64 % 4), pool, &mut nx);
+        out.push(json!({"case": "ser_sexpr", "expr": e}));
     }
     out
 }
